@@ -35,7 +35,10 @@ pub fn check(c: &SsaCircuit) -> Result<(), String> {
     if c.validate().is_err() {
         return Ok(()); // only valid SSA circuits are in scope
     }
-    let r: RegCircuit = c.into();
+    let r: RegCircuit = match std::panic::catch_unwind(std::panic::AssertUnwindSafe(|| RegCircuit::from(c))) {
+        Ok(r) => r,
+        Err(_) => return Err(format!("conversion of the valid SSA circuit {c:?} panics")),
+    };
     if let Err(e) = r.validate() {
         return Err(format!("conversion of {c:?} does not validate: {e:?}"));
     }
@@ -97,6 +100,7 @@ pub fn search(args: &[String]) -> i32 {
     let seed = arg_u64(args, "--seed", 1);
     let random = arg_u64(args, "--random", 100000);
     let depth = arg_u64(args, "--depth", 2) as usize;
+    std::panic::set_hook(Box::new(|_| {}));
     let mut n = 0u64;
     let fail = |args: &[String], w: String| {
         write_out(args, &format!("kind: c10-conversion\nobserved: {w}\n"));
